@@ -61,12 +61,14 @@ PROPERTIES['C13'] = {
     _c13('unique', 'h_unique', 'unique(Par) (CopyIfScanBody with the i/i+1 offset trick) == std::unique', lens=[1, 2, 3, 4]),
     _c13('elementwise', 'h_elementwise', 'for_each/transform/copy/fill/sequence(Par): every index exactly once, nothing outside [first,last)'),
     _c13('gather_scatter', 'h_gather_scatter', 'gather/scatter(Par) through an arbitrary permutation map'),
-    _c13('reduce_plus', 'h_reduce_plus', 'reduce(Par, plus, init = identity 0) == sequential fold for every reduction tree', lens=[1, 2, 3, 4]),
-    _c13('reduce_max', 'h_reduce_max', 'reduce(Par, max, init = identity) == sequential fold for every reduction tree', lens=[4]),
-    _c13('transform_reduce', 'h_transform_reduce', 'transform_reduce(Par, plus, 3*x, init = 0) == sequential fold', lens=[4]),
+    _c13('reduce_plus', 'h_reduce_plus', 'reduce(Par, plus, init = identity 0) == sequential fold for every reduction tree', lens=[1, 2, 3]),
+    _c13('reduce_plus_len4', 'h_reduce_plus', 'reduce(Par, plus) [length = 4]', tiers=['thorough'], defs_extra={'VF_LEN': 4}, timeout=1800),
+    _c13('reduce_max', 'h_reduce_max', 'reduce(Par, max, init = identity) == sequential fold for every reduction tree', lens=[3]),
+    _c13('transform_reduce', 'h_transform_reduce', 'transform_reduce(Par, plus, 3*x, init = 0) == sequential fold', lens=[3]),
     _c13('count_all', 'h_count_all', 'count_if, all_of (Par) == sequential definition for every reduction tree', tiers=['thorough']),
-    _c13('merge_rec', 'h_merge_rec', 'details::mergeRec (parallel stable merge used by stable_sort(Par, comp)): output is the STABLE merge of two sorted runs (left run first on ties) for every split and every parallel_invoke order', n=3, lens=[1, 2, 3], unwind={'default': 6}, recursion={'mergeRec|mergeSortRec': 3}, timeout=900),
-    _c13('radix_sort', 'h_radix_sort', 'stable_sort(Par) on uint32 = radix_sort/SortedRange/LSB_radix_sort/mergeRec: sorted permutation for every reduce tree and split timing', n=3, lens=[2, 3], unwind={'default': 5, 'Hist|histogram|prefixSum': 257}, recursion={'mergeRec|mergeSortRec': 4}),
+    _c13('merge_rec', 'h_merge_rec', 'details::mergeRec (parallel stable merge used by stable_sort(Par, comp)): output is the STABLE merge of two sorted runs (left run first on ties) for every split and every parallel_invoke order', n=3, lens=[1, 2], unwind={'default': 6}, recursion={'mergeRec|mergeSortRec': 3}, timeout=900),
+    _c13('merge_rec_len3', 'h_merge_rec', 'details::mergeRec stable parallel merge [length = 3]', n=3, unwind={'default': 6}, recursion={'mergeRec|mergeSortRec': 3}, timeout=1800, mem_gb=28, tiers=['thorough'], defs_extra={'VF_LEN': 3}),
+    _c13('radix_sort', 'h_radix_sort', 'stable_sort(Par) on uint32 = radix_sort/SortedRange/LSB_radix_sort/mergeRec: sorted permutation for every reduce tree and split timing', n=3, lens=[2, 3], unwind={'default': 5, 'Hist|histogram|prefixSum': 257}, recursion={'mergeRec|mergeSortRec': 4}, tiers=['experimental']),
   ]),
 }
 
@@ -129,12 +131,13 @@ PROPERTIES['C05'] = {
   'obligations': [
   ] + [
     dict(name='sharedvec_cfg%d' % c, harness='c05_vec.cpp', entry='h_sharedvec', defs={'VF_CFG': c, 'VF_N': 2}, backends=['minisat'], timeout=900, unwind={'default': 5}, cbmc=['--memory-leak-check'], object_bits=11,
-         cdefs=['VF_ALLOC_CLASSES=VF_C(4) VF_C(8) VF_C(12) VF_C(512)', 'VF_ALLOC_STRICT'],
+         cdefs=['VF_ALLOC_CLASSES=VF_C(4) VF_C(8) VF_C(12) VF_C(16) VF_C(24) VF_C(512)', 'VF_ALLOC_STRICT'], mem_gb=20,
          claim='SharedVec<int>, sharing configuration %d of 5: copy/move/assign/MakeUnique/push_back/resize/clear/pop_back/operator[] on one handle never change another handle; no leak, no double free; every mutator reaches AssertUnique with a unique block' % c,
          bounds='3 handles, contents <=2 symbolic ints, 1 arbitrary operation (8 kinds) on an arbitrary handle', targets=['src/vec.h Vec<int,true>'])
     for c in range(5)
   ] + [
-    dict(name='halfedges', harness='c05_vec.cpp', entry='h_halfedges', backends=['minisat'], timeout=900, unwind={'default': 8}, cbmc=['--memory-leak-check'], object_bits=10,
+    dict(name='halfedges', harness='c05_vec.cpp', entry='h_halfedges', backends=['minisat'], timeout=900, unwind={'default': 8}, cbmc=['--memory-leak-check'], object_bits=11, mem_gb=20,
+         cdefs=['VF_ALLOC_CLASSES=VF_C(4) VF_C(12) VF_C(24) VF_C(28) VF_C(48) VF_C(512)'],
          claim='Halfedges wrappers (MakeUnique, MakeInvalid, Set, push_back, resize, clear) on one handle leave a sharing handle unchanged', bounds='<=6 halfedges, 1 operation', targets=['src/shared.h Halfedges']),
   ],
 }
@@ -191,8 +194,9 @@ PROPERTIES['C04'] = {
     _c13('par_merge_rec_len3', 'h_merge_rec', 'parallel stable merge == sequential stable merge for every invoke order [length 3]', n=3, unwind={'default': 6}, recursion={'mergeRec|mergeSortRec': 3}, timeout=900, defs_extra={'VF_LEN': 3}, tiers=['experimental']),
   ],
 }
-for _o in PROPERTIES['C04']['obligations']:
-    if 'defs_extra' in _o: _o['defs'].update(_o.pop('defs_extra'))
+for _p in ('C04', 'C13'):
+    for _o in PROPERTIES[_p]['obligations']:
+        if 'defs_extra' in _o: _o['defs'].update(_o.pop('defs_extra'))
 
 PROPERTIES['C20'] = {
   'level_text': 'Bounded model checking (differential) of the C binding sources against the C++ members they name: for all finite double arguments every manifold_box_* / manifold_rect_* function returns exactly what the C++ Box/Rect call returns and constructs at the caller-supplied address; the Error/OpType/JoinType tables are name-preserving and injective; scalar conversions keep component order.',
@@ -228,13 +232,13 @@ PROPERTIES['C12'] = {
   'level_text': 'Bounded model checking of the real Hull and Simplify kernels of CrossSection: HullImpl on every multiset of <=4 lattice points returns a strictly convex counter-clockwise polygon over input points that contains every input point (exact integer orientation oracle); SimplifyRing returns an in-order subsequence with >=3 vertices in which, if more than 3 remain, every vertex deviates by at least the tolerance.',
   'level_note': 'Hull and Simplify clauses only; Offset joins, Decompose and monotonicity in delta are outside this check. Lattice radius 2, <=4 points / ring of <=5; SimplifyRing arithmetic decided at IEEE half precision. libstdc++ stable_sort/priority_queue are executed as compiled (real code).',
   'obligations': [
-    dict(name='hull_n4', harness='c12_cross.cpp', entry='h_hull', defs={'VF_LEN': 4, 'VF_R': 2}, models=['stdlib.h'], unwind={'auto': True, 'start': 2, 'max': 8, 'h_hull': 5}, recursion={'default': 2},
+    dict(name='hull_n4', harness='c12_cross.cpp', cdefs=['VF_ALLOC_CLASSES=VF_C(4) VF_C(5) VF_C(12) VF_C(16) VF_C(20) VF_C(32) VF_C(48) VF_C(64) VF_C(80) VF_C(96) VF_C(128)'], mem_gb=20, entry='h_hull', defs={'VF_LEN': 4, 'VF_R': 2}, models=['stdlib.h'], unwind={'auto': True, 'start': 2, 'max': 8, 'h_hull': 5}, recursion={'default': 2},
          backends=['minisat'], timeout=1200, object_bits=12,
          claim='HullImpl: vertices are input points; if the points are not all collinear the result has >=3 vertices, is strictly convex CCW and contains every input point', bounds='4 lattice points in [-2,2]^2 (duplicates, collinear allowed)', targets=['cross_section.cpp HullImpl, HullBacktrack', 'polygon.cpp CCW']),
-    dict(name='hull_n3', harness='c12_cross.cpp', entry='h_hull', defs={'VF_LEN': 3, 'VF_R': 3}, models=['stdlib.h'], unwind={'auto': True, 'start': 2, 'max': 8, 'h_hull': 4}, recursion={'default': 2},
+    dict(name='hull_n3', harness='c12_cross.cpp', cdefs=['VF_ALLOC_CLASSES=VF_C(4) VF_C(5) VF_C(12) VF_C(16) VF_C(20) VF_C(32) VF_C(48) VF_C(64) VF_C(80) VF_C(96) VF_C(128)'], mem_gb=20, entry='h_hull', defs={'VF_LEN': 3, 'VF_R': 3}, models=['stdlib.h'], unwind={'auto': True, 'start': 2, 'max': 8, 'h_hull': 4}, recursion={'default': 2},
          backends=['minisat'], timeout=900, object_bits=12,
          claim='HullImpl on 3 points', bounds='3 lattice points in [-3,3]^2', targets=['cross_section.cpp HullImpl']),
-    dict(name='simplify_n4', harness='c12_cross.cpp', entry='h_simplify', defs={'VF_LEN': 4, 'VF_R': 2}, models=['stdlib.h'], real='f16', unwind={'auto': True, 'start': 2, 'max': 16, 'h_simplify': 5}, recursion={'default': 2},
+    dict(name='simplify_n4', harness='c12_cross.cpp', cdefs=['VF_ALLOC_CLASSES=VF_C(4) VF_C(5) VF_C(12) VF_C(16) VF_C(20) VF_C(32) VF_C(48) VF_C(64) VF_C(80) VF_C(96) VF_C(128)'], mem_gb=20, entry='h_simplify', defs={'VF_LEN': 4, 'VF_R': 2}, models=['stdlib.h'], real='f16', unwind={'auto': True, 'start': 2, 'max': 16, 'h_simplify': 5}, recursion={'default': 2},
          backends=['minisat'], timeout=1200, object_bits=12,
          claim='SimplifyRing: in-order subsequence, size >= 3, remaining vertices deviate >= tol when more than 3 remain', bounds='ring of 4 lattice points in [-2,2]^2, tol any binary16 value |tol|<=16', targets=['cross_section.cpp SimplifyRing']),
   ],
